@@ -124,7 +124,16 @@ void run_typed(const Execution &ex) {
         // initializer-list constructor; init <= 4 keeps the literal lists below sufficient
         std::vector<T> v;
         for (int i = 1; i <= init; ++i) v.push_back(Val<T>::make(i));
-        switch (init) {
+        bool dflt = (size_t) init == cap && init > 0;   // RingBuffer{...}: the capacity defaults to the number of elements
+        if (dflt) {
+            switch (init) {
+                case 1: obj[0] = new RB({v[0]}); break;
+                case 2: obj[0] = new RB({v[0], v[1]}); break;
+                case 3: obj[0] = new RB({v[0], v[1], v[2]}); break;
+                default: dflt = false;
+            }
+        }
+        if (!dflt) switch (init) {
             case 0: obj[0] = new RB(std::initializer_list<T>{}, cap); break;
             case 1: obj[0] = new RB({v[0]}, cap); break;
             case 2: obj[0] = new RB({v[0], v[1]}, cap); break;
